@@ -498,6 +498,9 @@ def reader_words(facts, b):
                 l = lin(x[3][1])
                 if l is not None and set(l) == {"c"}:
                     return ("c", l["c"])
+                if inexact_steps(x[3][1], lambda y: y.kind == "call" and y[6].startswith("read_u"), 8,
+                                 extra_calls=("poll", "map_err", "into_future", "new_unchecked", "get_context")):
+                    return ("computed-length",)
                 return ("var",)
         return ("?",)
 
